@@ -6,7 +6,7 @@ package main
 // or slice-bounds panic: every such site must be in range on every path.
 
 var c25R6Exceptions = []boundsException{
-	{"builtin.QueryEscape#$1[$2]",
+	{"builtin.QueryEscape#$1[$2*]",
 		"two-pass sizing, a counting argument: b has len(s)+2*numHex bytes, where numHex is the number of bytes of s[:last] outside the pass-through class; the second pass writes one byte for a byte in the class and three otherwise, with the SAME class test (the agreement of the two tests is obligation R-4 of this property), so j stays below len(b)"},
 	{"builtin.CapitalizeAll#$1[$2:$3]",
 		"range over a string: the next key is i plus the UTF-8 width of the rune at i, and last is set to i+size with size = the width returned by utf8.DecodeRuneInString(s[i:]) for that same rune, so last never exceeds the next key: last ≤ i at s[last:i]"},
